@@ -31,6 +31,27 @@ CaseOf(e, i, exprsrc, inputsrc, unq, ast, long, pad) ==
 
 Case(ei, ii, exprsrc, inputsrc, unq, ast, long) == CaseOf(P.exprs[ei], P.inputs[ii], exprsrc, inputsrc, unq, ast, long, 0)
 
+(* arguments and file names that are not valid UTF-8 (the numbers are raw bytes): a file whose NAME is not text is still a file; an
+   expression argument that is not text is a bad expression *)
+IFNB == <<105, 110, 255, 46, 106, 115, 111, 110>>        \* in\xff.json
+EFB == <<101, 120, 254, 46, 116, 120, 116>>              \* ex\xfe.txt
+MISSB == <<110, 111, 255, 112, 101>>                     \* no\xffpe
+ByteCases(zzdummy) ==
+  LET e == P.exprs[2]  i == P.inputs[1]                  \* `a` on the first document
+      mk(argv, files, stdin, exprsrc, inputsrc, unq, ast, bad) ==
+        [e |-> "cli", bytes |-> TRUE, argv |-> argv, files |-> files, stdin |-> stdin, expr |-> e, input |-> i, exprsrc |-> exprsrc, inputsrc |-> inputsrc,
+         unquoted |-> unq, ast |-> ast, pad |-> 0, expr_not_utf8 |-> bad]
+  IN << mk(<<OptF(FALSE), IFNB, e>>, <<[name |-> IFNB, content |-> i]>>, <<>>, "arg", "file", FALSE, FALSE, FALSE),
+        mk(<<OptU(FALSE), OptF(TRUE), IFNB, e>>, <<[name |-> IFNB, content |-> i]>>, <<>>, "arg", "file", TRUE, FALSE, FALSE),
+        mk(<<OptE(FALSE), EFB>>, <<[name |-> EFB, content |-> e]>>, i, "file", "stdin", FALSE, FALSE, FALSE),
+        mk(<<OptE(TRUE), EFB, OptF(FALSE), IFNB>>, <<[name |-> EFB, content |-> e], [name |-> IFNB, content |-> i]>>, <<>>, "file", "file", FALSE, FALSE, FALSE),
+        mk(<<OptF(FALSE), MISSB, e>>, <<>>, <<>>, "arg", "missingfile", FALSE, FALSE, FALSE),
+        mk(<<OptE(FALSE), MISSB>>, <<>>, i, "missingfile", "stdin", FALSE, FALSE, FALSE),
+        mk(<<<<97, 255>>>>, <<>>, i, "arg", "stdin", FALSE, FALSE, TRUE),
+        mk(<<OptAst, <<195, 40>>>>, <<>>, <<>>, "arg", "stdin", FALSE, TRUE, TRUE),
+        mk(<<OptAst, OptE(FALSE), EFB>>, <<[name |-> EFB, content |-> e]>>, <<>>, "file", "stdin", FALSE, TRUE, FALSE),
+        mk(<<OptU(FALSE), <<255>>>>, <<>>, i, "arg", "stdin", TRUE, FALSE, TRUE) >>
+
 Full == IOEnv.FULL = "1"
 Cases(zzdummy) ==
   LET main == {<<ei, ii, "arg", "stdin", u, FALSE, FALSE>> : ei \in DOMAIN P.exprs, ii \in DOMAIN P.inputs, u \in BOOLEAN}
@@ -46,6 +67,7 @@ Cases(zzdummy) ==
       crlf == SetToSeq({<<ei, ii, es, u>> : ei \in {P.crlfexprs[k] : k \in DOMAIN P.crlfexprs}, ii \in {1, 2, 7}, es \in {"arg", "file"}, u \in BOOLEAN})
       dev == SetToSeq({<<ei, ii, es, u>> : ei \in {1, 2, 9, 10, 18, 22, 35}, ii \in {1, 2, 7, 12, 13, 4}, es \in {"arg", "file"}, u \in BOOLEAN})
   IN [x \in DOMAIN all |-> Case(all[x][1], all[x][2], all[x][3], all[x][4], all[x][5], all[x][6], all[x][7])]
+     \o ByteCases(0)
      \o [x \in DOMAIN crlf |-> Case(crlf[x][1], crlf[x][2], crlf[x][3], "stdin", crlf[x][4], FALSE, FALSE)]
      \o [x \in DOMAIN dev |-> Case(dev[x][1], dev[x][2], dev[x][3], "devstdin", dev[x][4], FALSE, FALSE)]
      \o [x \in DOMAIN big |-> CaseOf(P.exprs[big[x][1]], P.biginputs[big[x][2]], "arg", big[x][4], FALSE, FALSE, FALSE, big[x][3])]
